@@ -39,6 +39,20 @@ def err_class(line, keep=("depth", "version")):
     return line
 
 
+def canon_pair(canon, q, a, b):
+    """Canonical forms of the implementation's answer `a` and the model's answer `b`. The broker driver marks a turn in
+    which the model removed a connection with a trailing ` #rm`: both answers of such a turn are compared as multisets
+    per receiver (`canon.loose`)."""
+    loose = b.endswith(" #rm")
+    if loose:
+        b = b[:-4]
+    if canon is None:
+        return a, b
+    f = getattr(canon, "loose", None) if loose else None
+    f = f or canon
+    return f(q, a), f(q, b)
+
+
 def generic_run(binary, relevant_cmds, oracle_tags, sizes, canon=None, extra_args=None, corpus=None,
                 rule="", nontrivial=None, scenario_cmd=None, full_canon=None, subdir=""):
     """Builds the `run` function of a property served by a req/rust/lean line-protocol binary."""
@@ -96,7 +110,8 @@ def generic_run(binary, relevant_cmds, oracle_tags, sizes, canon=None, extra_arg
                     if diverged:
                         continue
                     bfull = lean[i] if i < len(lean) else "<missing>"
-                    if full_canon(q, a) != full_canon(q, bfull):
+                    fa, fb = canon_pair(full_canon, q, a, bfull)
+                    if fa != fb:
                         diverged = True
                 if relevant_cmds is not None and cmd not in relevant_cmds:
                     continue
@@ -104,8 +119,7 @@ def generic_run(binary, relevant_cmds, oracle_tags, sizes, canon=None, extra_arg
                     continue
                 b = lean[i] if i < len(lean) else "<missing>"
                 cov["evaluations"] += 1
-                ca = canon(q, a) if canon else a
-                cb = canon(q, b) if canon else b
+                ca, cb = canon_pair(canon, q, a, b)
                 if nontrivial is None or nontrivial(q, a):
                     distinct.add(hash(q))
                 if ca != cb:
@@ -206,7 +220,7 @@ def _msg_key(m):
 def broker_canon_for(pid):
     keep = BROKER_KEEP[pid]
 
-    def canon(q, line):
+    def canon(q, line, loose=False):
         if line.startswith("PANIC") or line.startswith("panic"):
             return "PANIC"   # a panic (of the implementation or a panic site reached by the model) concerns every property
         if not line.startswith("fin="):
@@ -229,7 +243,7 @@ def broker_canon_for(pid):
             if not everything:
                 res = [m for m in res if m.split(" ", 1)[0] in keep
                        or (m.startswith("callFunctionReply ") and m.endswith(" invalidService") and "callFunctionReply:invalidService" in keep)]
-            if q.startswith(BROKER_END_EVENTS):
+            if loose or q.startswith(BROKER_END_EVENTS):
                 # the clean-up of a connection walks several hash maps and sets (its objects, its calls in both
                 # directions, its subscriptions); in which order the different kinds of notification reach a third
                 # connection depends on their iteration order, which no property speaks about
@@ -238,6 +252,7 @@ def broker_canon_for(pid):
                 out.append(conn + ": " + " ; ".join(res))
         return " | ".join(out)
 
+    canon.loose = lambda q, line: canon(q, line, True)
     return canon
 
 
